@@ -145,7 +145,17 @@ class ConvModel(object):
         target = self._target(root, event)
         if target is None:
             return None, None
-        steps = [(neuropixel.NP2Converter, "_split2shanks", "split-window"), (neuropixel.NP2Converter, "_closefiles", "closefiles"),
+        def damage(a, k):
+            # one sample of what this window is about to write is altered (a flipped bit on the way to the disk)
+            a = list(a)
+            chunk = np.array(a[1], copy=True)
+            if chunk.size:
+                r = chunk.shape[0] // 2
+                chunk[r, 0] = chunk[r, 0] + 1 if chunk[r, 0] < 32767 else chunk[r, 0] - 1
+            a[1] = chunk
+            return tuple(a), k
+        damage.pre = True
+        steps = [(neuropixel.NP2Converter, "_split2shanks", "split-window", damage), (neuropixel.NP2Converter, "_closefiles", "closefiles"),
                  (neuropixel.NP2Converter, "_writemetadata_ap", "meta-ap"), (neuropixel.NP2Converter, "_writemetadata_lf", "meta-lf"),
                  (neuropixel.NP2Converter, "check_NP24", "verify"), (neuropixel.NP2Converter, "compress_NP24", "compress"),
                  (neuropixel.NP2Converter, "compress_NP21", "compress21"), (neuropixel.NP2Converter, "delete_NP24", "delete"),
@@ -179,6 +189,8 @@ class ConvModel(object):
             obs["status"] = "crashed"
         elif kind == "error" and w.fired:
             obs["status"] = "io-error:%s" % ("raised" if obs["exc"] else "absorbed:%s" % obs["status"])
+        elif kind == "corrupt" and w.fired:
+            obs["status"] = "damaged-write:%s" % ("noticed" if obs["exc"] else "unnoticed:%s" % obs["status"])
         return obs, w
 
     # ---------------------------------------------------------------- invariants on a directory
@@ -322,7 +334,7 @@ class ConvModel(object):
             viol += sv
             info2 = dict(info)
             ctx = "%s after %s%s" % (self.kind, _evstr(event), "" if crash is None else " %s point %d (%s)" % (
-                "with an I/O error injected at" if fault == "error" else "killed before", crash, log[crash] if crash < len(log) else "?"))
+{"error": "with an I/O error injected at", "corrupt": "with the data written at"}.get(fault, "killed before") + (" damaged:" if fault == "corrupt" else ""), crash, log[crash] if crash < len(log) else "?"))
             if not have_orig and pre_have_orig:
                 # the original disappeared in this transition
                 legit = (event["delete_original"] and event["post_check"] and self.kind.startswith("NP2.4") and event["target"] == "orig")
@@ -370,7 +382,8 @@ class ConvModel(object):
                 info2["completed"] = False
             first = (c2, info2["completed"]) not in seen_local
             seen_local[(c2, info2["completed"])] = True
-            out.append(dict(event=event, crash=crash, fault=fault, obs=obs, canon=c2, snap=snap2 if first else None, info=info2, violations=viol, points=K))
+            # directories holding a silently damaged window are checked but not expanded further (they would double the frontier for little)
+            out.append(dict(event=event, crash=crash, fault=fault, obs=obs, canon=c2, snap=snap2 if (first and fault != "corrupt") else None, info=info2, violations=viol, points=K))
 
         record(None, obs, w.log)
         if fault_budget >= 1:
@@ -390,6 +403,17 @@ class ConvModel(object):
                     if not wk.fired:
                         raise HarnessError("fault point %d of %d was never reached when replaying %s: the run is not deterministic" % (k, K, _evstr(event)))
                     record(k, obs_k, w.log, "error")
+            # a window reaches the shank files damaged (silent corruption of one write): a run that verifies its output (post_check) must not
+            # remove the original on the strength of it - only the state invariants are asserted
+            if event.get("post_check") and event["target"] == "orig" and self.kind.startswith("NP2.4") and event.get("again") is None:
+                for k in range(K):
+                    if w.log[k] != "step:split-window":
+                        continue
+                    histories.restore(root, snap)
+                    obs_k, wk = self._run(root, event, k, kind="corrupt")
+                    if not wk.fired:
+                        raise HarnessError("fault point %d of %d was never reached when replaying %s: the run is not deterministic" % (k, K, _evstr(event)))
+                    record(k, obs_k, w.log, "corrupt")
         return out
 
 
